@@ -401,6 +401,54 @@ def rand_value(rng, t, wild=False, f64_ok=False, mode="rand"):
     return (tag, rand_value(rng, t["fields"][tag], wild, f64_ok, mode))
 
 
+def boundary_value(t, j, wild=False):
+    """the j-th systematic boundary value: every leaf takes the j-th entry of its own boundary list (so +-inf, NaN, max, min, -1, all-ones,
+    just-out-of-range storage values, empty/full arrays and every union tag are all offered, independently of the random draws)"""
+    k = t["k"]
+    if k == "bool":
+        return j % 2
+    if k == "void":
+        return None
+    if k == "uint":
+        w = t["w"]
+        hi = (1 << w) - 1
+        c = [0, hi, 1, hi >> 1, (hi >> 1) + 1, hi - 1 if hi else 0]
+        if wild and store_w(w) > w:
+            sm = (1 << store_w(w)) - 1
+            c = [hi + 1, sm, sm - 1, (1 << w) | 1, sm ^ hi, hi + 2]
+        return c[j % len(c)]
+    if k == "int":
+        w = t["w"]
+        lo, hi = -(1 << (w - 1)), (1 << (w - 1)) - 1
+        c = [0, -1, lo, hi, 1, lo + 1, hi - 1]
+        if wild and store_w(w) > w:
+            slo, shi = -(1 << (store_w(w) - 1)), (1 << (store_w(w) - 1)) - 1
+            c = [hi + 1, lo - 1, slo, shi, hi + 2, lo - 2]
+        return c[j % len(c)]
+    if k == "float":
+        w = t["w"]
+        mx = {16: 65504.0, 32: 3.4028234663852886e38, 64: 1.7976931348623157e308}[w]
+        c = [0.0, math.inf, -math.inf, math.nan, mx, -mx, -0.0, 1.0, {16: 5.9604644775390625e-08, 32: 1e-45, 64: 5e-324}[w], 0.333251953125]
+        if wild and w < 64:
+            nxt = {16: 65520.0, 32: 3.4028235677973366e38}[w]
+            c = [nxt, -nxt, 65536.0 if w == 16 else 1e39, -1e39 if w == 32 else -70000.0, 65519.0 if w == 16 else 3.4028234663852886e38, 1e-9]
+            if w == 32:
+                c = [f32(x) for x in c]
+        return c[j % len(c)]
+    if k == "farr":
+        return [boundary_value(t["e"], j + i, wild) for i in range(t["n"])]
+    if k == "varr":
+        cap = t["cap"]
+        n = [0, cap, 1, max(cap - 1, 0)][j % 4]
+        if cap > 16:
+            n = [0, cap, 1, 7][j % 4]
+        return [boundary_value(t["e"], j + i, wild) for i in range(n)]
+    if k == "struct":
+        return [boundary_value(f, j + i, wild) for i, f in enumerate(t["fields"])]
+    tag = j % len(t["fields"])
+    return (tag, boundary_value(t["fields"][tag], j // len(t["fields"]), wild))
+
+
 def le(x, nbytes):
     return list((x & ((1 << (8 * nbytes)) - 1)).to_bytes(nbytes, "little"))
 
